@@ -47,6 +47,7 @@ func oneofInputs(c *core.Ctx) {
 				wire       []byte
 				json, text string
 				model      *refmsg.Msg
+				discard    bool // a JSON-only piece that needs DiscardUnknown (unknown enum name)
 			}
 			var pieces []piece
 			for _, fd := range members {
@@ -72,7 +73,14 @@ func oneofInputs(c *core.Ctx) {
 					tb, _ := prototext.MarshalOptions{AllowPartial: true}.Marshal(src.Interface())
 					js := strings.TrimSpace(string(jb))
 					js = strings.TrimSuffix(strings.TrimPrefix(js, "{"), "}")
-					pieces = append(pieces, piece{fd, fmt.Sprintf("%d#%d", fd.Number(), variant), b, js, strings.TrimSpace(string(tb)), sm})
+					pieces = append(pieces, piece{fd, fmt.Sprintf("%d#%d", fd.Number(), variant), b, js, strings.TrimSpace(string(tb)), sm, false})
+				}
+			}
+			// an enum member given by a name the enum does not have: with DiscardUnknown the
+			// value is dropped, but the document still NAMES the member
+			for _, fd := range members {
+				if fd.Kind() == protoreflect.EnumKind {
+					pieces = append(pieces, piece{fd: fd, name: fmt.Sprintf("%d#unknown-enum-name", fd.Number()), json: `"` + fd.JSONName() + `":"VERIF_NO_SUCH_VALUE"`, model: refmsg.New(md), discard: true})
 				}
 			}
 			// a record that carries a member's field number with a wire type the member
@@ -93,7 +101,7 @@ func oneofInputs(c *core.Ctx) {
 				}
 				sm := refmsg.New(md)
 				sm.Unknown = append([]byte{}, rec...)
-				pieces = append(pieces, piece{fd, fmt.Sprintf("%d#wrong-wire-type", fd.Number()), rec, "", "", sm})
+				pieces = append(pieces, piece{fd, fmt.Sprintf("%d#wrong-wire-type", fd.Number()), rec, "", "", sm, false})
 			}
 			n := len(pieces)
 			univ.ForTuples(c, n, 3, func(idx []int) {
@@ -132,8 +140,11 @@ func oneofInputs(c *core.Ctx) {
 				// JSON / text documents naming two members of one oneof (or one member twice)
 				jdoc := "{" + a.json + "," + b.json + "}"
 				m := f.MT.New()
-				if err := (protojson.UnmarshalOptions{AllowPartial: true, Resolver: res(f)}).Unmarshal([]byte(jdoc), m.Interface()); err == nil {
+				if err := (protojson.UnmarshalOptions{AllowPartial: true, Resolver: res(f), DiscardUnknown: a.discard || b.discard}).Unmarshal([]byte(jdoc), m.Interface()); err == nil {
 					c.Violation("protojson accepts two members of one oneof "+sig, jdoc)
+				}
+				if a.text == "" || b.text == "" {
+					return
 				}
 				tdoc := a.text + "\n" + b.text
 				m = f.MT.New()
